@@ -201,7 +201,7 @@ func (g *G) randPowers() {
 			power := rng.Pick(r, []int{1, 1, 2, 3, 5, 10, 0})
 			bonded := 1
 			if r.P(1, 8) {
-				bonded = 0
+				bonded = rng.Pick(r, []int{0, 2}) // unbonded, or still in its unbonding period (2): not bonded either way
 			}
 			jailed := 0
 			if r.P(1, 10) {
@@ -862,7 +862,15 @@ func (g *G) removedScript() {
 		g.emit("vote o%d v%d %s %d %s", x, x, e(salt), rs, vd)
 		g.block()
 	}
-	g.emit("setval v%d 0 x 0 -", x)
+	switch r.N(3) {
+	case 0:
+		// ... or it has only left the active set: its unbonding period runs, it is not bonded and must not be punished at the close
+		g.emit("setval v%d 1 2 0 -", x)
+	case 1:
+		g.emit("setval v%d 1 0 0 -", x)
+	default:
+		g.emit("setval v%d 0 x 0 -", x)
+	}
 	for i := 0; i < 9; i++ {
 		g.block()
 	}
@@ -1135,6 +1143,9 @@ func (g *G) malformedOp() {
 		g.emit("record %s %d %s 5 %s %s %s %s", admin, t.id, e("tok"), e(t.denom), e("1"), e(rng.Pick(r, []string{"0x0", "", "0xzz", "c1", strings.Repeat("f", 40), "0x0000000000000000000000000000000000000000"})),
 			e(rng.Pick(r, []string{"0x", "1", "0xg", "", "0x" + strings.Repeat("f", 64), "0x" + strings.Repeat("f", 65), "0X1"})))
 	case 7:
+		// governance proposals with a value that is out of range on its own: refused, nothing changes
+		g.emit("setoparams %d 0.5 %s %d %d", g.vp, rng.Pick(r, []string{"-0.01", "1.5", "-1"}), g.win, g.maxMiss)
+		g.emit("setoparams %d %s %s %d %d", g.vp, rng.Pick(r, []string{"0.49", "1.01", "0"}), g.frac, g.win, g.maxMiss)
 		g.emit("setperiod %s %d 0", admin, t.id)
 		g.emit("createtenant %s %s 0", admin, e("uusdc"))
 	case 8:
